@@ -3,6 +3,7 @@ CONSTANTS NConns = 3
   MaxTempErrs = 2
   Recover = TRUE
   RetryTemp = FALSE
+  SequencedBad = TRUE
 INIT Init
 NEXT Next
 INVARIANTS KeepsAccepting
